@@ -675,3 +675,14 @@ Proof.
     destruct (N.leb_spec (line_count (parse t)) (line_count (parse t))); [reflexivity|lia]. }
   rewrite E. rewrite andb_false_r. reflexivity.
 Qed.
+
+(* ================================================================ the generic range walk *)
+Lemma ranges_checked_spec : forall (t : text) (rs : list range),
+  forallb (fun r => range_in_doc (line_lens t) r || range_eqb r (document_lsp_range t)) rs = true <->
+  Forall (fun r => RangeInDoc (line_lens t) r \/ r = document_lsp_range t) rs.
+Proof.
+  intros t rs. rewrite forallb_forall, Forall_forall.
+  split; intros H x Hx; specialize (H x Hx).
+  - apply orb_true_iff in H. destruct H as [H|H]; [left; apply range_in_doc_spec; exact H|right; apply range_eqb_spec; exact H].
+  - apply orb_true_iff. destruct H as [H|H]; [left; apply range_in_doc_spec; exact H|right; apply range_eqb_spec; exact H].
+Qed.
